@@ -1577,7 +1577,8 @@ class Key(object):
             raise BKeyError("Uncompressed keys are non-standard for segwit/bech32 encoded addresses")
         if self._address_obj and script_type is None:
             script_type = self._address_obj.script_type
-        if not (self._address_obj and self._address_obj.prefix == prefix and self._address_obj.encoding == encoding):
+        if not (self._address_obj and self._address_obj.prefix == prefix and self._address_obj.encoding == encoding and
+                self._address_obj.data_bytes == data and self._address_obj.script_type == script_type):
             self._address_obj = Address(data, prefix=prefix, network=self.network, script_type=script_type,
                                         encoding=encoding, compressed=compressed)
         return self._address_obj.address
